@@ -103,7 +103,7 @@ def confirm(mid):
         demo = os.path.join(wt, "tests", "demo_%s.rs" % mid.replace("-", "_"))
         open(demo, "w").write(open(os.path.join(d, "demo.rs")).read())
         name = os.path.basename(demo)[:-3]
-        env = {"CARGO_TARGET_DIR": "/tmp/confirm_target"}
+        env = {"CARGO_TARGET_DIR": "/tmp/confirm_target_" + mid}
         rc0, out0 = sh(["cargo", "test", "--offline", "--test", name], cwd=wt, env=env)
         rc, out = sh(["git", "apply", os.path.join(d, "patch.diff")], cwd=wt)
         if rc != 0:
@@ -124,6 +124,7 @@ def confirm(mid):
         return 0 if ok else 1
     finally:
         sh(["git", "worktree", "remove", "--force", wt], cwd=REPO)
+        sh(["rm", "-rf", "/tmp/confirm_target_" + mid])
 
 
 def table():
